@@ -8,16 +8,59 @@ use std::cmp::Ordering;
 use std::fmt::Write as _;
 use std::path::Path;
 
+/// The upper-casing the property speaks of, computed WITHOUT calling the library: the override table
+/// `src/internal/uppercase.txt` (read as data from the working tree) over the toolchain's simple
+/// mapping `char::to_uppercase().next()`.
+pub fn spec_upper(c: char) -> char {
+    static T: std::sync::OnceLock<std::collections::HashMap<char, char>> = std::sync::OnceLock::new();
+    let t = T.get_or_init(|| {
+        let repo = std::env::var("VERIF_REPO").unwrap_or_else(|_| "/repo".into());
+        let txt = std::fs::read_to_string(format!("{}/src/internal/uppercase.txt", repo)).expect("uppercase.txt");
+        let cs: Vec<char> = txt.chars().collect();
+        let mut m = std::collections::HashMap::new();
+        let mut i = 0;
+        // entries look like ('x', 'y')
+        while i + 9 < cs.len() {
+            if cs[i] == '(' && cs[i + 1] == '\'' && cs[i + 3] == '\'' && cs[i + 4] == ',' && cs[i + 6] == '\'' && cs[i + 8] == '\'' && cs[i + 9] == ')' {
+                m.insert(cs[i + 2], cs[i + 7]);
+                i += 10;
+            } else {
+                i += 1;
+            }
+        }
+        m
+    });
+    t.get(&c).copied().or(c.to_uppercase().next()).unwrap_or_default()
+}
+
+/// Dumps `spec_upper` (every scalar whose image differs from itself) for the translator, and checks the
+/// library's `cfb_uppercase_char` (hook H2) against it for all 0x110000 scalars.
 pub fn upper_dump(path: &str) {
     let mut out = String::new();
+    let mut bad = 0;
     for c in 0..=0x10FFFFu32 {
         if let Some(ch) = char::from_u32(c) {
-            let u = cfb::verif::uppercase_char(ch) as u32;
-            if u != c {
-                writeln!(out, "{} {}", c, u).unwrap();
+            let u = spec_upper(ch);
+            if u as u32 != c {
+                writeln!(out, "{} {}", c, u as u32).unwrap();
+            }
+            let got = catch(|| cfb::verif::uppercase_char(ch));
+            if got != Ok(u) {
+                bad += 1;
+                if bad <= 20 {
+                    let g = got.map(|g| format!("{:x}", g as u32)).unwrap_or_else(|_| "panic".into());
+                    println!("ORACLE upper {:x} gave {} table {:x}", c, g, u as u32);
+                }
+            }
+            // simple capitalisation: a character whose full upper-casing expands must be overridden,
+            // or it would alias the first character of the expansion
+            if ch.to_uppercase().count() > 1 && u == ch.to_uppercase().next().unwrap() && u != ch {
+                println!("ORACLE upper-alias {:x} maps to {:x}, the first unit of a multi-character expansion", c, u as u32);
             }
         }
     }
+    println!("STAT upper_scalars_checked {}", 0x110000 - 0x800);
+    println!("STAT upper_mismatches {}", bad);
     std::fs::write(path, out).unwrap();
 }
 
@@ -75,7 +118,7 @@ pub fn related(rng: &mut Rng, a: &str) -> String {
     match rng.below(6) {
         0 => a.to_uppercase(),
         1 => a.to_lowercase(),
-        2 => chars.iter().map(|&c| if rng.chance(1, 2) { cfb::verif::uppercase_char(c) } else { c }).collect(),
+        2 => chars.iter().map(|&c| if rng.chance(1, 2) { spec_upper(c) } else { c }).collect(),
         3 if !chars.is_empty() => {
             let mut v = chars.clone();
             let i = rng.below(v.len() as u64) as usize;
@@ -152,13 +195,13 @@ pub fn exec(line: &str) -> String {
 }
 
 /// Independent oracle for the order: MS-CFB 2.6.4 — shorter (in UTF-16 units) first, then by
-/// upper-cased UTF-16 code units; upper-casing is the library's table (an assumption, DESIGN §5).
+/// upper-cased UTF-16 code units; upper-casing is `spec_upper` (uppercase.txt as data over std's simple mapping), not the library function.
 pub fn spec_cmp(a: &str, b: &str) -> Ordering {
     let key = |s: &str| -> (usize, Vec<u16>) {
         let n = s.encode_utf16().count();
         let mut v = Vec::new();
         for c in s.chars() {
-            let u = cfb::verif::uppercase_char(c);
+            let u = spec_upper(c);
             let mut buf = [0u16; 2];
             v.extend_from_slice(u.encode_utf16(&mut buf));
         }
